@@ -176,4 +176,63 @@ theorem decodeSlice_subst (ec : EntCfg) (hc : ec.sliceCrcChecked = true) (a s : 
         rw [take_subst_lt _ s x' 4 hk, take_subst_lt _ s x 4 hk]
         exact fun he => rd32_subst _ _ x x' hne he.symm
 
+/-- `DecodeEntryFrom` (stream decoder behind `EntryIterator` / `vlog.Manager.Iterate`): a valid
+entry with one byte behind its varint header replaced by a different byte is rejected with
+`ErrBadChecksum`. -/
+theorem decodeStream_subst (ec : EntCfg) (hc : ec.streamCrcChecked = true) (a s : Bytes) (x x' : Nat)
+    (hx : x < 256) (hx' : x' < 256) (hne : x ≠ x') (h : EHdr) (idx : Nat) (e : Entry) (n : Nat) (rest : Bytes)
+    (hd : decodeHdr (a ++ x :: s) = .ok h idx) (hidx : idx ≤ a.length)
+    (hpos : a.length < idx + h.klen + h.vlen + 4)
+    (hvalid : decodeStream ec crc32c (a ++ x :: s) = .ok e n rest) :
+    decodeStream ec crc32c (a ++ x' :: s) = .err .badcrc := by
+  have hd' := decodeHdr_prefix a (x :: s) (x' :: s) h idx hd hidx
+  unfold decodeStream at hvalid ⊢
+  rw [hd] at hvalid
+  rw [hd']
+  simp only [List.drop_drop, List.length_drop] at hvalid ⊢
+  have hlen : (a ++ x' :: s).length = (a ++ x :: s).length := by simp
+  rw [hlen]
+  split at hvalid
+  · cases hvalid
+  · rename_i h1
+    rw [if_neg h1]
+    split at hvalid
+    · cases hvalid
+    · rename_i h2
+      rw [if_neg h2]
+      split at hvalid
+      · cases hvalid
+      · rename_i h3
+        rw [if_neg h3]
+        split at hvalid
+        · cases hvalid
+        · rename_i hcrc
+          rw [if_pos]
+          refine ⟨hc, ?_⟩
+          have hstored : rd32 (((a ++ x :: s).drop (idx + h.klen + h.vlen)).take 4)
+              = crc32c ((a ++ x :: s).take (idx + h.klen + h.vlen)) % 4294967296 := by
+            by_cases he : rd32 (((a ++ x :: s).drop (idx + h.klen + h.vlen)).take 4)
+                = crc32c ((a ++ x :: s).take (idx + h.klen + h.vlen)) % 4294967296
+            · exact he
+            · exact absurd ⟨hc, he⟩ hcrc
+          rw [Nat.mod_eq_of_lt (crc32c_lt _)] at hstored ⊢
+          by_cases hcase : a.length < idx + h.klen + h.vlen
+          · rw [take_subst_lt a s x' _ hcase, drop_subst_lt a s x' _ hcase]
+            rw [take_subst_lt a s x _ hcase, drop_subst_lt a s x _ hcase] at hstored
+            rw [hstored]
+            exact crc32c_subst a _ hx hx' hne
+          · have hle : idx + h.klen + h.vlen ≤ a.length := by omega
+            rw [List.take_append_of_le_length hle, List.drop_append_of_le_length hle]
+            rw [List.take_append_of_le_length hle, List.drop_append_of_le_length hle] at hstored
+            rw [← hstored]
+            have hk : (a.drop (idx + h.klen + h.vlen)).length < 4 := by
+              rw [List.length_drop]; omega
+            rw [take_subst_lt _ s x' 4 hk, take_subst_lt _ s x 4 hk]
+            exact fun he => rd32_subst _ _ x x' hne he.symm
+
+theorem iterEntries_of_err (ec : EntCfg) (crc : Bytes → Nat) (b : Bytes) (e : EErr)
+    (h : decodeStream ec crc b = .err e) : iterEntries ec crc b = ([], e) := by
+  unfold iterEntries
+  simp only [iterFuel, h]
+
 end NoKV.Wal
